@@ -32,6 +32,14 @@ def qs(xs):
 def gen_series(rng, n, style=None):
     """candles [ts, o, c, h, l, v] on a coarse lattice (exactly representable, so that the rational model sees the same inputs)"""
     style = style or rng.choice(['walk', 'trend', 'flat', 'alternating', 'constant', 'spiky', 'big', 'tiny'])
+    if style == 'awkward':
+        # not on the lattice: a constant that is not a dyadic rational, a walk that goes flat on such a value (rounding of x*x sums matters)
+        v = rng.choice([0.1, 0.3, 1.1, 84.3, 123456.789, 1e9 / 7])
+        out = []
+        for i in range(n):
+            x = v if (i > n // 3 or rng.random() < 0.5) else v * (1 + rng.randrange(-3, 4) / 100.0)
+            out.append([1600000000000 + i * 60000, x, x, x, x, float(rng.randrange(1, 64))])
+        return out, style
     scale = {'big': 1048576.0, 'tiny': 1 / 1024.0}.get(style, 1.0)
     p = 100.0
     out = []
@@ -94,9 +102,10 @@ def correspondence(rng, n_cases):
     for k in range(n_cases):
         name = names[k % len(names)]
         build, impl, kind, mode = M[name]
-        n = rng.choice([3, 8, 20, 45, 70])
-        cs, style = gen_series(rng, n)
         p = rng.choice([2, 3, 5, 9, 14, 20])
+        n = rng.choice([3, 8, 20, 45, 70, p - 1, p, p + 1, p + 2])          # lengths around the period matter: that is where the NaN prefix ends
+        n = max(2, n)
+        cs, style = gen_series(rng, n)
         with warnings.catch_warnings():
             warnings.simplefilter('ignore')
             try:
@@ -122,3 +131,129 @@ def correspondence(rng, n_cases):
             errs.append(o[-600:]); continue
         bad += [good[j[1] + i] for i in C.parse_nat_list(r[0])]
     return cases, bad, errs
+
+
+# ------------------------------------------------------------------------------------------ monitors over every public indicator
+def all_indicators():
+    C.use_repo()
+    import jesse.indicators as ta
+    out = []
+    for n in sorted(dir(ta)):
+        f = getattr(ta, n)
+        if n.startswith('_') or not callable(f) or inspect.isclass(f):
+            continue
+        try:
+            sig = inspect.signature(f)
+        except (TypeError, ValueError):
+            continue
+        if 'sequential' in sig.parameters:
+            out.append((n, f, sig))
+    return out
+
+
+def variants(sig, rng):
+    """default parameters, and one variant with every integer period-like parameter changed and another source type"""
+    v = [{}]
+    alt = {}
+    for name, prm in sig.parameters.items():
+        if name in ('candles', 'sequential'):
+            continue
+        if isinstance(prm.default, bool):
+            continue
+        if isinstance(prm.default, int) and ('period' in name or name in ('length', 'lookback', 'window')) and prm.default >= 2:
+            alt[name] = max(2, prm.default + rng.choice([-1, 2, 3])) if prm.default > 2 else 3
+        if name == 'source_type':
+            alt[name] = rng.choice(['high', 'low', 'open', 'hl2', 'hlc3', 'ohlc4'])
+    if alt:
+        v.append(alt)
+    # integer "type" selectors (matype, devtype, ...): one more variant per run, with a non-default selection
+    sel = {}
+    for name, prm in sig.parameters.items():
+        if isinstance(prm.default, int) and not isinstance(prm.default, bool) and name.endswith('type') and name != 'source_type':
+            sel[name] = rng.choice([1, 2]) if name == 'devtype' else rng.choice([0, 1, 2, 3, 4, 5, 9, 12])
+    if sel:
+        v.append(sel)
+    return v
+
+
+def period_values(sig, params):
+    out = []
+    for name, prm in sig.parameters.items():
+        val = params.get(name, prm.default)
+        if isinstance(val, int) and not isinstance(val, bool) and ('period' in name or name in ('length', 'lookback', 'window')):
+            out.append(val)
+    return out
+
+
+def call(f, sig, arr, sequential, params):
+    import numpy as np
+    kw = dict(params)
+    extra = []
+    names = list(sig.parameters)
+    # indicators that compare with a second series get the same series shifted
+    for nm in names[1:]:
+        prm = sig.parameters[nm]
+        if prm.default is inspect.Parameter.empty and nm not in ('sequential',) and prm.kind in (prm.POSITIONAL_OR_KEYWORD,):
+            other = arr.copy(); other[:, 1:5] = other[:, 1:5] * 1.5 + 3.0
+            kw[nm] = other
+    with warnings.catch_warnings():
+        warnings.simplefilter('ignore')
+        return f(arr, sequential=sequential, **kw)
+
+
+def fields(res):
+    """result -> {field: array or scalar}"""
+    import numpy as np
+    if isinstance(res, tuple) and hasattr(res, '_fields'):
+        return {k: getattr(res, k) for k in res._fields}
+    if isinstance(res, tuple):
+        return {str(i): v for i, v in enumerate(res)}
+    return {'value': res}
+
+
+def same(a, b, scale):
+    """two floats equal up to rounding (NaN = NaN, inf = inf)"""
+    a = float('nan') if a is None else a           # a few indicators return None for "no value yet"
+    b = float('nan') if b is None else b
+    try:
+        a = float(a); b = float(b)
+    except (TypeError, ValueError):
+        return a == b
+    if math.isnan(a) or math.isnan(b):
+        return math.isnan(a) and math.isnan(b)
+    if math.isinf(a) or math.isinf(b):
+        return a == b
+    return abs(a - b) <= 1e-6 * (abs(a) + abs(b)) + 1e-9 * scale
+
+
+def numeric_array(v):
+    import numpy as np
+    try:
+        a = np.asarray(v, dtype=float)
+        return a if a.ndim == 1 else None
+    except (TypeError, ValueError):
+        return None
+
+
+def run_child(which, tier, seed):
+    """run harness.<which>.monitor in a child interpreter; a crash of the child is reported with the call it was making"""
+    import os
+    import subprocess
+    d = os.path.join(C.BUILD, 'run')
+    os.makedirs(d, exist_ok=True)
+    out = os.path.join(d, f'{which}_monitor.json')
+    prog = os.path.join(d, f'{which}_progress.json')
+    for pth in (out, prog):
+        if os.path.exists(pth):
+            os.remove(pth)
+    env = dict(os.environ, PYTHONPATH=C.VERIF, PYTHONHASHSEED='0', PYTHONWARNINGS='ignore')
+    r = subprocess.run(['/venv/bin/python', os.path.join(C.VERIF, 'harness', 'ind_child.py'), which, tier, str(seed), out, prog],
+                       stdout=subprocess.PIPE, stderr=subprocess.PIPE, text=True, env=env, cwd=C.VERIF)
+    if r.returncode == 0 and os.path.exists(out):
+        return json.load(open(out))
+    last = None
+    try:
+        last = json.load(open(prog))
+    except Exception:
+        pass
+    return {'crash': dict(last or {}, returncode=r.returncode, stderr_tail=r.stderr[-400:])}
